@@ -3,6 +3,7 @@
 //! workspace, run, and their printed observations compared with the reference semantics.
 
 mod emit;
+mod emit_c02;
 mod plan;
 mod props;
 mod run;
